@@ -198,11 +198,11 @@ pub trait TypedIterable {
     where
         Self: DNSIterable,
     {
+        if shift == 0 {
+            return Ok(());
+        }
+        let offset = self.offset().ok_or(DSError::VoidRecord)?;
         {
-            if shift == 0 {
-                return Ok(());
-            }
-            let offset = self.offset().ok_or(DSError::VoidRecord)?;
             let packet = &mut self.parsed_packet_mut().packet_mut();
             let packet_len = packet.len();
             if shift > 0 {
@@ -245,6 +245,13 @@ pub trait TypedIterable {
                 .offset_answers
                 .map(|x| (x as isize + shift) as usize)
         }
+        parsed_packet.offset_edns = parsed_packet.offset_edns.map(|x| {
+            if x > offset {
+                (x as isize + shift) as usize
+            } else {
+                x
+            }
+        });
         Ok(())
     }
 
